@@ -12,6 +12,8 @@
 //	entry … [type=<t>] [in]                  (in: WithTrafficType(Inbound))
 //	loadres <res> <thr>* / clearres <res>    (isolation.LoadRulesOfResource / ClearRulesOfResource, also on rule-less resources)
 //	clock <ms>                               (virtual clock := case start - 10000 + ms, 0 <= ms <= 20000; may step backwards)
+//	when <id> ok|err                         (entry.WhenExit: a handler returning nil / an error; the gauge comes back all the same)
+//	pexit <id>                               (WhenExit handler that panics, then Exit)
 //	trace <id>                               (api.TraceError on the entry, live or exited)
 //	dexit <id>                               (Exit called by TWO goroutines that meet inside the completion path, see rdv)
 //	conc <res>                               => gauge
@@ -374,6 +376,29 @@ func (it *Interp) Step(t []string, op string) string {
 			} else {
 				h.e.Exit()
 			}
+			h.exited = true
+		}
+		return ""
+	case "when":
+		// register an exit handler on a live entry: returns nil ("ok") or an error ("err"); the completion must run all the same
+		if h, ok := it.ents[vh.U(t[1])]; ok && !h.exited {
+			fail := t[2] == "err"
+			if t[2] != "ok" && !fail {
+				panic("bad handler kind " + t[2])
+			}
+			h.e.WhenExit(func(*base.SentinelEntry, *base.EntryContext) error {
+				if fail {
+					return errTraced
+				}
+				return nil
+			})
+		}
+		return ""
+	case "pexit":
+		// Exit of an entry with a panicking exit handler (Exit recovers the panic)
+		if h, ok := it.ents[vh.U(t[1])]; ok && !h.exited {
+			h.e.WhenExit(func(*base.SentinelEntry, *base.EntryContext) error { panic("c04: exit handler panics") })
+			h.e.Exit()
 			h.exited = true
 		}
 		return ""
